@@ -84,6 +84,9 @@ thread_local int Obs::depth = 0;
 static std::atomic<long> g_allot_reports{0}, g_serial_reports{0};
 static std::mutex g_sig_m; static std::set<uint64_t> g_allot_sigs;
 static std::mutex g_ser_m; static std::map<const void*, long> g_ser_sum;
+static std::atomic<int> g_market_undergrant_known_shape{0};
+static std::atomic<long> g_enqueued_not_run{0};          // enqueued tasks of the current scenario that have not run yet
+static std::atomic<const char*> g_phase{"start"};
 static void on_report(int id, const void* obj, const long* v, int n) {
     if (id == 100 /*vr_market_allotment*/) {
         g_allot_reports.fetch_add(1, std::memory_order_relaxed);
@@ -107,6 +110,10 @@ static void on_report(int id, const void* obj, const long* v, int n) {
         if (sum_max != demand) {
             std::string cl; for (long i = 0; i < nc && i < 14; i++) cl += " [lvl " + std::to_string(v[4 + 4 * i]) + " min " + std::to_string(v[5 + 4 * i]) + " max " + std::to_string(v[6 + 4 * i]) + " allot " + std::to_string(v[7 + 4 * i]) + "]";
             fail("c16.demand-accounting", "sum of client requests " + std::to_string(sum_max) + " != total demand " + std::to_string(demand) + "; soft limit " + std::to_string(soft) + ", mandatory " + std::to_string(mandatory) + ", " + std::to_string(nc) + " clients:" + cl);
+        }
+        {   // state of the market after its latest allotment, for the hang verdict: is it currently granting nothing in the known shape?
+            bool mcm = false; for (long i = 0; i < nc; i++) if (v[5 + 4 * i] > 0 && v[6 + 4 * i] > 0) mcm = true;
+            g_market_undergrant_known_shape.store(sum != expect && soft == 0 && mandatory > 0 && !mcm && sum == 0 ? 1 : 0, std::memory_order_relaxed);
         }
         if (sum != expect) {
             std::string cl; for (long i = 0; i < nc && i < 12; i++) cl += " [lvl " + std::to_string(v[4 + 4 * i]) + " min " + std::to_string(v[5 + 4 * i]) + " max " + std::to_string(v[6 + 4 * i]) + " allot " + std::to_string(v[7 + 4 * i]) + "]";
@@ -157,7 +164,12 @@ int main(int argc, char** argv) {
     watchdog_start(WatchdogCfg{}, [&](const HangInfo& hi) {
         std::string d = "no progress for " + std::to_string(hi.stalled_for) + "s; threads: " + hi.threads.substr(0, 700);
         if (!hi.quiescent && !hi.spin_stall) { R.inconclusive++; fprintf(stderr, "[c16] inconclusive stall: %s\n", d.c_str()); R.finish_and_exit(4); }
-        R.violation(hi.quiescent ? "c16.hang.quiescent" : "c16.hang.spin-stall", d, "{}");
+        d += "; phase: " + std::string(g_phase.load()) + "; enqueued tasks not run: " + std::to_string(g_enqueued_not_run.load()) + "; latest market allotment grants nothing although a mandatory request is counted (known shape): " + std::to_string(g_market_undergrant_known_shape.load());
+        // A scenario that only waits for its enqueued tasks while the market, by its own latest report, grants no worker in the shape of the
+        // known accounting defect (mandatory request counted, no client able to use it) is that defect's consequence, not a new one.
+        std::string key = hi.quiescent ? "c16.hang.quiescent" : "c16.hang.spin-stall";
+        if (g_enqueued_not_run.load() > 0 && g_market_undergrant_known_shape.load()) key += ".enqueue-starved.market-grants-nothing-for-mandatory-request";
+        R.violation(key, d, "{}");
         R.finish_and_exit(3);
     });
     for (long k = 0; k < cases; k++) {
@@ -199,8 +211,8 @@ int main(int argc, char** argv) {
                             }, tbb::simple_partitioner());
                         });
                     } else if (what < 7) {
-                        enq_left++; m->enq_pending++;
-                        m->arena.enqueue([&, m, sd] { { InBody ib(m, 0); Rng br(sd); spin_some(br); } m->enq_pending--; enq_left--; });
+                        enq_left++; m->enq_pending++; g_enqueued_not_run++;
+                        m->arena.enqueue([&, m, sd] { g_enqueued_not_run--; { InBody ib(m, 0); Rng br(sd); spin_some(br); } m->enq_pending--; enq_left--; });
                     } else if (what < 9 && mi + 1 < am.size()) {
                         // nested arenas only in increasing order: holding a slot of A while waiting for a slot of B and vice versa
                         // would be a lock-order inversion made by the harness
@@ -213,8 +225,11 @@ int main(int argc, char** argv) {
                     progress();
                 }
             });
+            g_phase.store("arena scenario: application threads running");
             for (auto& t : th) t.join();
+            g_phase.store("arena scenario: application threads joined, waiting for the enqueued tasks");
             while (enq_left.load() > 0) sched_yield();
+            g_phase.store("between scenarios");
             R.scenarios++;
             long bodies = 0; uint64_t h = std::hash<std::string>{}(shp); bool par = false;
             for (auto& m : am) { bodies += m->bodies.load(); h = mix(h, (uint64_t)m->max_inflight.load() * 64 + (uint64_t)(m->max_index.load() + 1)); if (m->max_inflight.load() >= 2) par = true; R.stat_max("max_inflight_vs_bound_pct", m->max_inflight.load() * 100 / m->conc); R.stat("reserved_slot_entries_by_external_threads", m->reserved_entries.load()); }
@@ -230,6 +245,7 @@ int main(int argc, char** argv) {
         } else {
             // ---- steady regime under max_allowed_parallelism = L: at most L-1 workers inside bodies at once
             int L = 1 + (int)r.below(8);
+            g_phase.store("steady budget regime");
             tbb::global_control g(tbb::global_control::max_allowed_parallelism, L);
             sleep_us(1000);
             if (!drain_workers()) { R.stat("budget_regimes_skipped_not_drained"); R.scenarios++; progress(); continue; }   // not a steady regime: no verdict
